@@ -12,7 +12,8 @@ import (
 // C04 — a utility ranking is exactly the order of the utilities (DESIGN.md 6.C04, A.1).
 
 // -1 and 0 are in the grid on purpose: a utility of exactly 0 (and tiers below it) is ordinary with cost criteria
-var c04Levels = []float64{0, 1, 0.7 + 1.4, 1 + 4e-9, 1 + 6e-9, -1, 2.1, 1e11} // 0.7+1.4 = 2.0999999999999996 rounds to 2.1
+// -1e-9 rounds to negative zero: the same utility as 0 (and as +1e-9, which rounds to 0)
+var c04Levels = []float64{0, 1, 0.7 + 1.4, 1 + 4e-9, 1 + 6e-9, -1, 2.1, 1e11, -1e-9, 1e-9} // 0.7+1.4 = 2.0999999999999996 rounds to 2.1
 
 func c04LevelsFor(n int, thorough bool) []float64 {
 	switch {
@@ -23,7 +24,7 @@ func c04LevelsFor(n int, thorough bool) []float64 {
 	case n == 5 && thorough:
 		return c04Levels[:6]
 	case n == 5:
-		return []float64{0, 1, 1 + 6e-9, -1}
+		return []float64{0, 1, 1 + 6e-9, -1e-9}
 	default:
 		return []float64{0, 1, -1}
 	}
